@@ -182,6 +182,7 @@ ACC2_EXPRS = [
     ("utils.keyify(M_a, M_b)", "(some (key2 {a} {b}))", "Option (Nat × Nat)"),
     ("self._adjV2Cn.get(M_v, None)", "p0__adjV2Cn[{v}]?", "Option (List Nat)"),
     ("self._adjV2V[M_v]", "p0__adjV2V[{v}]?", "List Nat", True),
+    ("self.mesh.face_corners.adj(M_c)", "(S.fc[{c}]?).map (fun e => e.2)", "Nat", True),
 ]
 ACC2 = [  # (lean name, qualified python name, params, ptypes, ret, raising, ctx extras)
     ("inFaceIndex", "SurfaceMesh._Connectivity.in_face_index", ["self", "F", "V"], [None, "Nat", "Nat"], "Option Nat", False),
@@ -190,6 +191,7 @@ ACC2 = [  # (lean name, qualified python name, params, ptypes, ret, raising, ctx
     ("edgeToVertices", "PolyLine._Connectivity.edge_to_vertices", ["self", "E"], [None, "Nat"], "(Nat × Nat)", True),
     ("vertexToCorners", "SurfaceMesh._Connectivity.vertex_to_corners", ["self", "V"], [None, "Nat"], "Option (List Nat)", False),
     ("vertexToVertices", "PolyLine._Connectivity.vertex_to_vertices", ["self", "V"], [None, "Nat"], "List Nat", True),
+    ("cornerToFace", "SurfaceMesh._Connectivity.corner_to_face", ["self", "C"], [None, "Nat"], "Nat", True),
 ]
 ACC3_EXPRS = [
     ("self._adjF2Cn[M_f]", "(dictGet p0__adjF2Cn {f})", "Nat", True),
@@ -339,6 +341,7 @@ ACC2_FALLBACK = ("/- the translator refused the current source: stubs (the bridg
                  f"def edgeToVertices {_T2} (p1 : Nat) : Option (Nat × Nat) := some (0, 0)\n"
                  f"def vertexToCorners {_T2} (p1 : Nat) : Option (List Nat) := some [0]\n"
                  f"def vertexToVertices {_T2} (p1 : Nat) : Option (List Nat) := some [0]\n"
+                 f"def cornerToFace {_T2} (p1 : Nat) : Option Nat := some 0\n"
                  "def faceToFirstCorner (S : Surf) (p0__adjF2Cn : FDict) (p1 : Nat) : Option Nat := some 0\n"
                  "def faceToCorners (S : Surf) (p0__adjF2Cn : FDict) (p1 : Nat) : Option (List Nat) := some [0]\n"
                  "def faceToFaces (S : Surf) (p0__adjF2Cn : FDict) (p1 : Nat) : Option (List Nat) := some [0]\n" +
